@@ -5,6 +5,13 @@ V = "/verif"
 props = [json.loads(l) for l in open(V + "/properties.jsonl")]
 
 CLAIMED = {
+ "C19": dict(
+    text="Exhaustiveness/GUARD/PURITY rules over misc/e2image.c and lib/ext2fs/qcow2.c: every block-location accessor of the group descriptor (enumerated from blknum.c), the primary superblock, its descriptor blocks and the MMP block are marked over all groups, "
+         "silently skipped for nothing but UNINIT flags / zero location / absent feature; per in-use inode the xattr block; all blocks of directories, symlinks, journal, every quota type (count taken from enum quota_type) and the orphan file; "
+         "every other inode is walked whenever the extents flag or any indirect root i_block[IND..TIND] is set (index sets evaluated through one helper level and constant loop bounds), and the callback marks every mapping block; walks are not DATA_ONLY; "
+         "both writers scan to ext2fs_blocks_count and copy exactly the marked blocks; the source is opened without EXT2_FLAG_RW; the qcow2-to-raw reader bounds table offsets by the qcow2 file's size and extends the output only when shorter; no 32-bit ~mask on 64-bit offsets. "
+         "'Silently skipped' is computed (conditions whose other arm fails the operation are not restrictions). Decides that no metadata class is left out on any file system; does NOT decide qcow2 L1/L2/refcount arithmetic or byte identity itself.",
+    ref="§8.6 C19", technique="static analysis: exhaustiveness over source-enumerated classes, control-dependence purity with error-exit classification, edge-gated must-pass, constant index-set evaluation, operand-width facts"),
  "C09": dict(
     text="Typestate/ORDER/WHO rules over lib/ext2fs/fileio.c and the allocation callers, decided on every CFG path: the handle's one-block buffer changes block only after it was written out and invalidated; "
          "load_buffer's dontfill argument governs nothing but the buffer content (all handle state the flush consults is set independently of it), valid only after the lookup, dontfill only for whole-block writes; "
@@ -110,11 +117,9 @@ CLAIMED = {
 
 NA_REASON = {
  "C07": "geometry arithmetic and option-compatibility logic over a combinatorial configuration space: numerical, no clause visible in the shape of the code; mke2fs -n is decided under C13, backup writing under C20",
- "C09": "round-trip equality over operation histories (RMW buffer, extent split/merge, punch ranges): runtime values and history, no structural necessary condition",
  "C10": "history-dependent data-structure behaviour (leaf split, rec_len coalescing, hash order, hash values): runtime quantities; dir-block checksum wiring is decided under C14",
  "C15": "round-trip of a sorted in-memory array through three storage placements; placement, order and hash values are runtime quantities; xattr block checksum wiring is decided under C14",
  "C18": "equality of two directory trees over all tree shapes; copy loops and metadata transfer are value-level",
- "C19": "which blocks are metadata is decided by iterating the actual filesystem; qcow2 table arithmetic is numerical; 'never touches the source' is decided under C13",
 }
 
 checks = []
